@@ -26,6 +26,61 @@ pub fn literal_then_directive(s: &str) -> bool {
     sig.windows(2).any(|w| matches!(w[0].k, K::Str | K::EscId) && w[1].k == K::Bt)
 }
 
+/// F4 (glued expansions) is recognised by repairing the input: with a blank on both sides of every
+/// directive / macro usage (and behind a usage's argument list) the run must succeed and its output
+/// must be a fixed point (up to the exactly modelled F1 duplication)
+fn glue_repaired_is_fixed_point(src: &str, defs: &Defs) -> bool {
+    let Ok(lx) = lexref::lex(src) else { return false };
+    let mut padded = String::new();
+    let mut i = 0;
+    while i < lx.len() {
+        let l = &lx[i];
+        if l.k == K::Bt {
+            padded.push(' ');
+            padded.push_str(&src[l.b..l.e]);
+            // an argument list directly behind the name stays attached to it
+            if i + 1 < lx.len() && &src[lx[i + 1].b..lx[i + 1].e] == "(" {
+                let mut depth = 0i32;
+                let mut j = i + 1;
+                while j < lx.len() {
+                    let t = &src[lx[j].b..lx[j].e];
+                    padded.push_str(t);
+                    if lx[j].k == K::Punct {
+                        if t == "(" {
+                            depth += 1;
+                        } else if t == ")" {
+                            depth -= 1;
+                            if depth == 0 {
+                                break;
+                            }
+                        }
+                    }
+                    j += 1;
+                }
+                i = j;
+            }
+            padded.push(' ');
+        } else {
+            padded.push_str(&src[l.b..l.e]);
+        }
+        i += 1;
+    }
+    let run = |t: &str| match api::pp_str(t, Path::new("top.sv"), defs, &[] as &[PathBuf], false, false) {
+        Ok(Ok((pt, _))) => Some(pt.text().to_string()),
+        _ => None,
+    };
+    let Some(first) = run(&padded) else { return false };
+    let Some(second) = run(&first) else { return false };
+    second == first || lexref::emulate_p1(&first, false).as_deref() == Some(second.as_str()) || literal_then_trivia_directive(&first)
+}
+
+/// ... by a directive that the preprocessor grammar accepts as trailing trivia (all but `resetall)
+pub fn literal_then_trivia_directive(s: &str) -> bool {
+    let Ok(lx) = lexref::lex(s) else { return false };
+    let sig: Vec<&lexref::Lx> = lx.iter().filter(|l| !lexref::is_trivia(l.k)).collect();
+    sig.windows(2).any(|w| matches!(w[0].k, K::Str | K::EscId) && w[1].k == K::Bt && &s[w[1].b..w[1].e] != "`resetall")
+}
+
 /// remove all trivia that directly follows a string literal / escaped identifier
 fn drop_trivia_after_literals(s: &str) -> Option<String> {
     let lx = lexref::lex(s).ok()?;
@@ -111,11 +166,26 @@ pub fn fixed_point_src(acc: &mut Acc, out: &str, defs: &Defs, what: &str, src: O
         Ok(Ok((pt, _))) => {
             if pt.text() != out {
                 acc.class("violation");
-                let sig = match (drop_trivia_after_literals(out), drop_trivia_after_literals(pt.text())) {
-                    (Some(a), Some(b)) if a == b => Some(SIG_P1.to_string()),
-                    _ if literal_then_directive(out) => Some(SIG_P1D.to_string()),
-                    _ if src.map(directive_attached).unwrap_or(false) => Some(SIG_GLUE.to_string()),
-                    _ => None,
+                // F1 has an exact model where only white space and comments follow the literal
+                // (lexref::emulate_p1); where a directive other than `resetall follows it (which the
+                // preprocessor grammar makes part of the literal's trailing trivia) it is recognised by
+                // its cause only
+                let sig = if literal_then_trivia_directive(out) {
+                    match (drop_trivia_after_literals(out), drop_trivia_after_literals(pt.text())) {
+                        (Some(a), Some(b)) if a == b => Some(SIG_P1.to_string()),
+                        _ => Some(SIG_P1D.to_string()),
+                    }
+                } else {
+                    match lexref::emulate_p1(out, false) {
+                        Some(e) if e == pt.text() => Some(SIG_P1.to_string()),
+                        Some(_) if src.map(|x| directive_attached(x) && glue_repaired_is_fixed_point(x, defs)).unwrap_or(false) => Some(SIG_GLUE.to_string()),
+                        Some(_) => None,
+                        None => match (drop_trivia_after_literals(out), drop_trivia_after_literals(pt.text())) {
+                            (Some(a), Some(b)) if a == b => Some(SIG_P1.to_string()),
+                            _ if src.map(|x| directive_attached(x) && glue_repaired_is_fixed_point(x, defs)).unwrap_or(false) => Some(SIG_GLUE.to_string()),
+                            _ => None,
+                        },
+                    }
                 };
                 acc.violation(sig, case(), format!("output is not a fixed point: {:?} becomes {:?}", clip(out, 300), clip(pt.text(), 300)));
             } else {
@@ -124,7 +194,7 @@ pub fn fixed_point_src(acc: &mut Acc, out: &str, defs: &Defs, what: &str, src: O
         }
         Ok(Err(e)) => {
             acc.class("violation");
-            let sig = if src.map(directive_attached).unwrap_or(false) { Some(SIG_GLUE.to_string()) } else { None };
+            let sig = if src.map(|x| directive_attached(x) && glue_repaired_is_fixed_point(x, defs)).unwrap_or(false) { Some(SIG_GLUE.to_string()) } else { None };
             acc.violation(sig, case(), format!("output {:?} of a successful run is rejected when fed back: {}", clip(out, 300), err_sig(&e)));
         }
         Err(p) => {
@@ -167,6 +237,14 @@ pub fn build(tier: Tier) -> Check<'static> {
                 s.push_str(pieces[(start + j * stride) % 8]);
             }
             identity(acc, &s, "long text");
+        }));
+    }
+    {
+        // literals next to kept directives: the output must be a fixed point whatever stands around them
+        let alpha: [&'static str; 12] = ["\"s\"", "\\e ", "a", " ", "\n", "`resetall\n", "`celldefine", "//c\n", "/*c*/", "`timescale 1ns/1ps", "`define A \"d\" x\n", ";"];
+        let sp = soup::strings(&alpha, 0, tier.pick(4, 5), &[""]);
+        c.parts.push(Part::new("directive-pieces", sp.len(), "all sequences <= 4 (quick) / 5 (thorough) of 12 pieces: string, escaped identifier, word, blank, line end, `resetall, `celldefine, comments, `timescale, a `define holding a string", move |i, acc| {
+            identity(acc, &sp.get(i), "directive pieces");
         }));
     }
     {
